@@ -15,14 +15,13 @@ impl RequestHandler<CodeLensRequest> for CodeLensRequestHandler {
         ctx: &mut LspContext,
         params: CodeLensParams,
     ) -> MosResult<Option<Vec<CodeLens>>> {
-        let tests = enumerate_test_cases(
-            ctx.parsing_source(),
-            &params.text_document.uri.to_file_path().unwrap(),
-        )
-        .unwrap_or_default();
+        let path = params.text_document.uri.to_file_path().unwrap();
+        let tests = enumerate_test_cases(ctx.parsing_source(), &path).unwrap_or_default();
 
         let result = tests
             .into_iter()
+            // Tests of imported files are enumerated as well, but their ranges refer to those files
+            .filter(|(sl, _)| path.to_str() == Some(sl.file.name()))
             .flat_map(|(sl, test_case_path)| {
                 let run = CodeLens {
                     range: to_range(sl.clone()),
